@@ -34,7 +34,10 @@ var propImports = map[string][][]string{
 	"C08": {{"C02", "RUNES"}, {"C19", "MODEL"}},
 	"C09": {{"C06", "WALK", "SELECT", "POSITIONAL", "GATE"}, {"C19", "MODEL"}},
 	"C10": {{"C03", "TERMINATOR", "PASSAFTER"}, {"C02", "CLUSTER"}},
+	"C11": {{"C02", "NEGATIVE"}, {"C05", "CLEAR"}},
 	"C12": {{"C13", "FUNNEL"}, {"C11", "TAG"}},
+	"C13": {{"C05", "INI"}},
+	"C14": {{"C13", "PRIORITY"}},
 	"C16": {{"C17", "UNIT"}},
 	"C17": {{"C16", "ATTR", "MASK"}},
 	"C20": {{"C16", "PRED"}},
